@@ -23,6 +23,10 @@ type Lexer struct {
 	line int
 	// An offset into the string in rune
 	lineStartRunes int
+	// the line number the current token starts on
+	startLine int
+	// An offset into the string in rune, of the line the current token starts on
+	startLineStartRunes int
 }
 
 func New(src *ast.Source) Lexer {
@@ -48,8 +52,8 @@ func (s *Lexer) makeValueToken(kind Type, value string) (Token, error) {
 		Pos: ast.Position{
 			Start:  s.startRunes,
 			End:    s.endRunes,
-			Line:   s.line,
-			Column: s.startRunes - s.lineStartRunes + 1,
+			Line:   s.startLine,
+			Column: s.startRunes - s.startLineStartRunes + 1,
 			Src:    s.Source,
 		},
 	}, nil
@@ -78,6 +82,8 @@ func (s *Lexer) ReadToken() (Token, error) {
 	s.ws()
 	s.start = s.end
 	s.startRunes = s.endRunes
+	s.startLine = s.line
+	s.startLineStartRunes = s.lineStartRunes
 
 	if s.end >= len(s.Input) {
 		return s.makeToken(EOF)
